@@ -134,6 +134,9 @@ pub const PROPS: &[Prop] = &[
             // "select owners re-raise it as documented": the cqueue family with its arm panics,
             // Selector::remove and the arm-panic-must-reach-the-poller oracle
             Unit { fam: "cqueue", label: "cqueue-arm-panics", share: 1, strategy: cqueue::strategy },
+            // "later spawns run normally (also ones that reuse its stack)": the local family's
+            // recycled stacks with panicked / cancelled / timed-out histories and fresh probes
+            Unit { fam: "local", label: "stack-reuse", share: 1, strategy: local::strategy },
         ],
     },
     Prop {
